@@ -38,6 +38,10 @@ func (s *refSpec) universe(lvl int) ([]string, []eco.Ver, int) {
 		if err != nil {
 			continue
 		}
+		// use the value of a second, independent parse (memoising parsers)
+		if v2, err2 := eco.SafeParse(e, c); err2 == nil {
+			v = v2
+		}
 		strs = append(strs, c)
 		vers = append(vers, v)
 	}
